@@ -137,7 +137,7 @@ func C07(r *report.Report, tier string) {
 		depth, cap = 3, 1024
 	}
 	al := c07Alphabet()
-	r.Rule = fmt.Sprintf("every history of <=%d operations over UNSTABLE/DATA_SYNC/FILE_SYNC writes (aligned and overlapping) to two files, COMMITs and metadata operations (%d symbols), with the unstable option on and off; every written range is read back at once; every crash image of the disk trace is recovered: the state must be the reference after a prefix (in acknowledgement order) containing every operation acknowledged as stable or followed by a successful stable operation/COMMIT - a lost operation followed by a surviving one is the violation; committed >= requested (== FILE_SYNC and durable with the option off); the verifier is constant within an instance and different after recovery and after a clean restart", depth, len(al))
+	r.Rule = fmt.Sprintf("every history of <=%d operations over UNSTABLE/DATA_SYNC/FILE_SYNC writes (aligned and overlapping) to two files, COMMITs and metadata operations (%d symbols), with the unstable option on and off; every written range is read back at once; every crash image of the disk trace is recovered: the state must be the reference after a prefix (in acknowledgement order) containing every operation acknowledged as stable or followed by a successful stable operation/COMMIT - a lost operation followed by a surviving one is the violation; committed >= requested (== FILE_SYNC and durable with the option off); the verifier is constant within an instance and different after recovery and after a clean restart; named histories: a request refused by the journal or the announced maximal write between an unstable write and its COMMIT, and 17 histories on a server with an inode cache of two (the written file's cached inode is evicted or dropped before the COMMIT)", depth, len(al))
 	var jobs []crashArg
 	for _, h := range crashHistories(al, depth) {
 		hasWrite := false
@@ -172,6 +172,24 @@ func C07(r *report.Report, tier string) {
 	} {
 		jobs = append(jobs, crashArg{Prop: "C07", DiskSize: 3000, Setup: c07Setup, Ops: h, Cap: 16, MaxImages: 120, CheckVerf: true, ImplFail: true, Tag: "after-wtmax-write"})
 	}
+	// a server whose inode cache holds two inodes: every request on another object between an unstable write and its
+	// COMMIT evicts the written file's cached inode, and a refused request on the file itself makes the server drop it -
+	// whatever the server remembers about outstanding unstable data must not live in the cached inode alone
+	for _, x := range []fsx.Op{
+		{K: "CREATE", H: "root", N: "c"},
+		{K: "WRITE", H: "root/g", Off: 0, Cnt: 10, Pat: 0x54, Stable: 0},
+		{K: "SETATTR", H: "root/g", NoSize: true, Mtime: 556},
+		{K: "LOOKUP", H: "root/f", N: "x"},
+		{K: "LOOKUP", H: "root", N: "g"},
+		{K: "SETATTR", H: "root/f", Size: 1 << 62},
+		{K: "READ", H: "root/g", Off: 0, Cnt: 100},
+		{K: "REMOVE", H: "root", N: "g"},
+	} {
+		for _, last := range []fsx.Op{{K: "COMMIT", H: "root/f"}, {K: "WRITE", H: "root/f", Off: 4096, Cnt: 10, Pat: 0x55, Stable: 2}} {
+			jobs = append(jobs, crashArg{Prop: "C07", DiskSize: 3000, Setup: c07Setup, Ops: []fsx.Op{uw, x, last}, Cap: cap, CheckVerf: true, ReadBack: true, ICacheSz: 2, Tag: "inode-cache-of-two"})
+		}
+	}
+	jobs = append(jobs, crashArg{Prop: "C07", DiskSize: 3000, Setup: c07Setup, Ops: []fsx.Op{uw, {K: "CREATE", H: "root", N: "c"}, {K: "CREATE", H: "root", N: "e"}, {K: "COMMIT", H: "root/f"}}, Cap: cap, CheckVerf: true, ReadBack: true, ICacheSz: 2, Tag: "inode-cache-of-two"})
 	runCrashJobs(r, jobs, map[string]bool{"C07": true})
 	// clean restarts
 	var rj []interface{}
